@@ -481,6 +481,17 @@ func runC18(c *runCfg) error {
 			}
 			msgs = append(msgs, mSync(), mQuery(bytes.Repeat([]byte("Z"), 100+g.rng.Intn(3000))), msg('z', bytes.Repeat([]byte("Y"), 2000)))
 		}
+		// later traffic includes binding the same portal (and the unnamed one) again with as many, fewer and more
+		// parameters of other values and formats: what an earlier execution was handed stays as it was
+		if i%3 != 1 {
+			for k, nm := range [][]byte{[]byte("p"), nil, []byte("p")} {
+				var ps []bindP
+				for j := 0; j < []int{2, 1, 3}[(k+i)%3]; j++ {
+					ps = append(ps, bindP{v: bytes.Repeat([]byte{byte('k' + k + j)}, 7+j+k)})
+				}
+				msgs = append(msgs, mBind(nm, []byte("s"), []int{(k + i) % 2}, ps, nil), mExecute(nm, 0), mBind(nm, []byte("s"), nil, ps[:len(ps)-1], nil), mSync())
+			}
+		}
 		msgs = append(msgs, mQuery(longQ), mExecute([]byte("p"), 0), mSync(), mTerminate())
 		cs := lockCase(i, "retain", cfg, su, msgs)
 		cs.pre = 2
